@@ -64,18 +64,24 @@ structure MSt where
   hc : Nat → Option Nat := fun _ => none
   can : Nat → Option (Nat × Bool) := fun _ => none
   ret : Nat → Option (Nat × Res) := fun _ => none
+  /-- the earliest time at which the handler of the request finished or its caller's context ended -/
+  closed : Nat → Option Nat := fun _ => none
 
 /-- Set a slot unless it is already filled. -/
 def setFirst {α : Type} (f : Nat → Option α) (i : Nat) (v : α) : Nat → Option α :=
   fun j => if j = i then (f i).or (some v) else f j
 
+/-- Keep the smaller of the slot and the new value. -/
+def setMin (f : Nat → Option Nat) (i : Nat) (v : Nat) : Nat → Option Nat :=
+  fun j => if j = i then (match f i with | some x => some (min x v) | none => some v) else f j
+
 def mupd (m : MSt) (e : Ev) : MSt :=
   match e.k with
   | .snd => { m with snd := setFirst m.snd e.i e.t }
   | .beg => { m with beg := setFirst m.beg e.i e.t }
-  | .fin => { m with fin := setFirst m.fin e.i e.t }
+  | .fin => { m with fin := setFirst m.fin e.i e.t, closed := setMin m.closed e.i e.t }
   | .hc => { m with hc := setFirst m.hc e.i e.t }
-  | .can dl => { m with can := setFirst m.can e.i (e.t, dl) }
+  | .can dl => { m with can := setFirst m.can e.i (e.t, dl), closed := setMin m.closed e.i e.t }
   | .ret r => { m with ret := setFirst m.ret e.i (e.t, r) }
 
 def summ (tr : List Ev) : MSt := tr.foldl mupd {}
@@ -100,10 +106,10 @@ def optAll {α : Type} (o : Option α) (p : α → Bool) : Bool :=
 
 /-- The route the request of call i travelled is still there at time t, as far as the log shows: the response
 stream of the enclosing request p carries messages while p's handler runs and p's caller has not abandoned it
-(no `fin p`, no `can p` up to and including the instant t). -/
+(no `fin p`, no `can p` up to and including the instant t: `closed p` is the earliest such event). -/
 def routeOpen (c : Cfg) (m : MSt) (i : Nat) (t : Nat) : Bool :=
   match callRoute c i with
-  | .reqStream p => optAll (m.fin p) (fun x => decide (t < x)) && optAll (m.can p) (fun x => decide (t < x.1))
+  | .reqStream p => optAll (m.closed p) (fun x => decide (t < x))
   | .standalone => c.standalone
   | _ => true
 
